@@ -103,6 +103,7 @@ type RunCfg struct {
 	EvForger   bool    `json:"evidence_forger"`
 	Director   bool    `json:"round_director"`
 	IDTwins    bool    `json:"byzantine_vote_for_block_id_twins"`
+	InvalidHeavy bool  `json:"every_second_byzantine_proposal_invalid"`
 	WalHeadLimit int   `json:"wal_head_size_limit"` // crash mode: 0 = the product's default (10 MB, never reached)
 }
 
